@@ -46,7 +46,7 @@ class Row:
         self.atoms = []   # (index in conds, kind, descr) of conditions that are neither event structure nor the retry predicate
 
 
-DEEP_ADTS = ("writer::summarize::Summarize",)
+DEEP_ADTS = ("writer::summarize::Summarize", "writer::libtest::Libtest")
 
 # writers whose handle_event buffers / replays events: the per-event routine is the unit that is tabulated
 ENTRY = {"writer::libtest::Libtest": r"::expand_cucumber_event$"}
@@ -77,7 +77,9 @@ class HandlerTable:
                 return True
             # private helper fns of the writer's own module
             return cb.name.startswith(mod) and cb.vis != "Public" and not (cb.impl and cb.impl.get("trait"))
-        self.deep = D.Deep(F, co, inline_only=only, max_paths=6000)
+        # Libtest formats a lot in the routines that also count: whatever follows the last reachable counter update of a
+        # frame is pruned (deep.py `prune`), which keeps its table small (≈230 rows instead of >20000)
+        self.deep = D.Deep(F, co, inline_only=only, max_paths=6000, prune=("" if self.entry is not None else None))
         self.paths = self.deep.run()
         if not self.paths:
             raise Unverifiable(f"{adt}: empty path table")
